@@ -311,8 +311,16 @@ impl<'a> World<'a> {
                     for c in &chunks_y {
                         self.hold(c);
                     }
-                    data = dm_y.value().to_vec();
-                    self.rep.probe("content_is_a_serialised_data_map");
+                    // two legal payloads: the serialised data-map level itself, or the serialised chunk holding it
+                    // (what a user gets from rmp_serde::to_vec(&DataMapChunk) when backing up a private data map,
+                    // and exactly what an additional data-map level decrypts to)
+                    data = if plan.seed % 2 == 0 {
+                        self.rep.probe("content_is_a_serialised_data_map_chunk");
+                        rmp_serde::to_vec(&dm_y).expect("serialise chunk")
+                    } else {
+                        self.rep.probe("content_is_a_serialised_data_map");
+                        dm_y.value().to_vec()
+                    };
                 }
                 let len = &data.len();
                 let Some((dm, chunks)) = self.encrypt_and_check(&data) else { return };
